@@ -26,8 +26,9 @@ the not yet returned frames that are completely inside the visible bytes.
 TRR (`get_gromacs_frames`): the size-guard state machine `trrRun` and, since the extension pass, the whole generator
 at byte level (`gGen`, Model/ReadersObj.lean); the decoding of the reals is checked by the tie.
 
-Domain (audit pass): `XyzF.WF` / `LmpF.WF` exclude files that contain '\r' (field `nocr`): the code reads in
-universal-newline text mode, which the byte model does not mirror (pending finding C13:text:carriage-return).
+Carriage returns: since /repo d5ef98e the readers open with `newline="\n"`, so '\r' is an ordinary blank and only
+'\n' ends a line — exactly what `lines` / `isBlank` of the model do; `XyzF.WF` / `LmpF.WF` put no condition on
+'\r' (CRLF files, lone '\r' as a blank or in free text are inside the theorems; witness `wCR` below).
 LAMMPS: the whole-schedule theorems without any cut guard are the `*_any_slack` theorems at the end of this file
 (per-frame-slack specification `lmpStagesS`, Model/ReadersSlack.lean); `lmp_exact` (slack = 1) and the
 `*_trailing_partial` theorems (cut guard `tbFree`) are kept as they were.
@@ -65,7 +66,6 @@ theorem wF1_wf : wF1.WF 2 where
   cntTok := ⟨['2'], [], by decide, by decide⟩
   cmt := isLine_of _ ['c', 'o', 'm', 'm', 'e', 'n', 't'] rfl (by decide)
   natoms := rfl
-  nocr := by decide
   atoms := by
     intro a ha
     simp only [wF1, List.mem_cons, List.not_mem_nil, or_false] at ha
@@ -78,7 +78,6 @@ theorem wF2_wf : wF2.WF 2 where
   cntTok := ⟨['2'], [], by decide, by decide⟩
   cmt := isLine_of _ ['c', 'o', 'm', 'm', 'e', 'n', 't'] rfl (by decide)
   natoms := rfl
-  nocr := by decide
   atoms := by
     intro a ha
     simp only [wF2, List.mem_cons, List.not_mem_nil, or_false] at ha
@@ -255,7 +254,6 @@ theorem wU_wf : wU.WF 1 where
   cntTok := ⟨['1'], [], by decide, by decide⟩
   cmt := isLine_of _ [' ', 'a', ' ', '=', ' ', '5', ' ', '\xc3', '\x85'] rfl (by decide)
   natoms := rfl
-  nocr := by decide
   atoms := by
     intro a ha
     simp only [wU, List.mem_cons, List.not_mem_nil, or_false] at ha
@@ -343,7 +341,6 @@ theorem wL1_wf : wL1.WF 1 where
   b2 := ⟨isLine_of _ ['0', ' ', '1'] rfl (by decide), by decide, by decide⟩
   l8 := isLine_of _ ['A'] rfl (by decide)
   natoms := rfl
-  nocr := by decide
   atoms := by
     intro a ha
     simp only [wL1, List.mem_cons, List.not_mem_nil, or_false] at ha
@@ -364,7 +361,6 @@ theorem wL2_wf : wL2.WF 1 where
   b2 := ⟨isLine_of _ ['0', ' ', '2', ' ', '0'] rfl (by decide), by decide, by decide⟩
   l8 := isLine_of _ ['A'] rfl (by decide)
   natoms := rfl
-  nocr := by decide
   atoms := by
     intro a ha
     simp only [wL2, List.mem_cons, List.not_mem_nil, or_false] at ha
@@ -1031,7 +1027,6 @@ theorem wLT_wf : wLT.WF 1 where
   b2 := ⟨isLine_of _ ['0', ' ', '1'] rfl (by decide), by decide, by decide⟩
   l8 := isLine_of _ ['A'] rfl (by decide)
   natoms := rfl
-  nocr := by decide
   atoms := by
     intro a ha
     simp only [wLT, wL1, List.mem_cons, List.not_mem_nil, or_false] at ha
@@ -1323,5 +1318,37 @@ theorem lmp_no_frame_withheld_any_slack (N : Nat) (hN : 1 ≤ N) (frames : List 
 
 example : (∀ f ∈ [wLT, wLT], f.WF 1) ∧ ([41] ++ [86, 86]).Pairwise (· ≤ ·)
     ∧ completeCount (lmpLens [wLT, wLT]) 86 = 2 := ⟨wLTs_wf, by decide, by decide⟩
+
+/-! ## carriage returns (finding C13:text:carriage-return, fixed by /repo d5ef98e)
+
+The code opens the file with `newline="\n"`: '\r' is a blank of `str.split()`/`str.strip()` and never a line end —
+`isBlank '\r' = true`, `lines` splits at '\n' only.  No theorem has a condition on '\r'. -/
+
+/-- "2\r\nc\r\nH 1 2 3\r\nC 4 5 6\r\n" (24 bytes, CRLF line ends) -/
+def wCR : XyzF :=
+  { cnt := ['2', '\r', '\n'],
+    cmt := ['c', '\r', '\n'],
+    atoms := [['H', ' ', '1', ' ', '2', ' ', '3', '\r', '\n'], ['C', ' ', '4', ' ', '5', ' ', '6', '\r', '\n']] }
+
+theorem wCR_wf : wCR.WF 2 where
+  cnt := isLine_of _ ['2', '\r'] rfl (by decide)
+  cntTok := ⟨['2'], [], by decide, by decide⟩
+  cmt := isLine_of _ ['c', '\r'] rfl (by decide)
+  natoms := rfl
+  atoms := by
+    intro a ha
+    simp only [wCR, List.mem_cons, List.not_mem_nil, or_false] at ha
+    rcases ha with rfl | rfl
+    · exact ⟨isLine_of _ ['H', ' ', '1', ' ', '2', ' ', '3', '\r'] rfl (by decide), by decide, by decide⟩
+    · exact ⟨isLine_of _ ['C', ' ', '4', ' ', '5', ' ', '6', '\r'] rfl (by decide), by decide, by decide⟩
+
+/-- the recorded witness of the finding on the code as it is now: cut between '\r' and '\n' of frame 1's last line
+    (23 of 48 bytes), then the whole file twice — nothing at 23, both frames at 48, no exception -/
+example : (∀ f ∈ [wCR, wCR], f.WF 2) ∧ isBlank '\r' = true ∧
+    pollAll (xyzReader .repaired) (xyzContent [wCR, wCR]) [23, 48, 48] 0 = .ok [[], [wCR.decode, wCR.decode], []] := by
+  refine ⟨?_, by decide, by decide⟩
+  intro f hf
+  simp only [List.mem_cons, List.not_mem_nil, or_false] at hf
+  rcases hf with rfl | rfl <;> exact wCR_wf
 
 end Infretis.C13
